@@ -208,6 +208,18 @@ def run(ctx):
     cases.append(({"type": "record", "name": "R", "fields": [{"name": "f", "type": [{"type": "null"}, "int"], "default": "x"}]},
                   dict(kind="default-wrong-type", path=["fields", 0], field_type=[{"type": "null"}, "int"], default="x")))
 
+    # wrong-type default on a field whose type is a DIRECT reference to a record that is still open (self / mutual recursion)
+    for dv in (5, "x", [], True, None, 1.5):
+        for sch, path in [
+                ({"type": "record", "name": "Node", "fields": [{"name": "v", "type": "int"}, {"name": "next", "type": "Node", "default": dv}]}, ["fields", 1]),
+                ({"type": "record", "name": "A", "fields": [{"name": "b", "type": {"type": "record", "name": "B", "fields": [
+                    {"name": "a", "type": "A", "default": dv}]}}]}, ["fields", 0, "type", "fields", 0]),
+                ({"type": "record", "name": "N", "namespace": "a.b", "fields": [{"name": "self", "type": "a.b.N", "default": dv},
+                                                                                 {"name": "x", "type": "long"}]}, ["fields", 0]),
+                ({"type": "error", "name": "n.E", "fields": [{"name": "inner", "type": {"type": "record", "name": "I", "fields": [
+                    {"name": "up", "type": "E", "default": dv}, {"name": "me", "type": ["null", "I"]}]}}]}, ["fields", 0, "type", "fields", 0])]:
+            cases.append((sch, dict(kind="default-wrong-type", path=path, field_type="direct reference to an open record", default=dv)))
+
     exprs = []
     for s, mut in cases:
         t = sg.to_coq(s)
